@@ -13,6 +13,8 @@ int main(void)
     CZ(TLS_REC_HDR_LEN) CZ(TLS_HS_HDR_LEN) CZ(TLS_GCM_TAG_LEN)
     CZ(TLS_1_3_MAX_CIPHERTEXT_LEN) CZ(TLS_1_3_MAX_PLAINTEXT_FRAGMENT_LEN)
     CZ(v_dtls_any) CZ(v_tls_1_3_any) CZ(v_tls_negotiated) CZ(v_tls_explicit_iv)
+    CZ(PS_OUTPUT_LENGTH)
+    CZV("sizeof_size_t", sizeof(size_t))
     CZ(PS_TIMEOUT_FAIL) CZ(PS_INTERRUPT_FAIL) CZ(PS_DISABLED_FEATURE_FAIL)
 #ifdef SSL_DEFAULT_IN_HS_SIZE_CLIENT_HELLO
     CZV("hsLenMax_client_hello", SSL_DEFAULT_IN_HS_SIZE_CLIENT_HELLO)
